@@ -81,20 +81,23 @@ USteps(e) == Steps(e.a.state) \cup Steps(e.b.state)
 GlobHit(db, s, X) ==
   s \in Keys(db) /\ \E i \in DOMAIN db.nodes[s].nglobs :
      \E j \in DOMAIN db.nodes[s].nglobs[i][3] : db.nodes[s].nglobs[i][3][j] \in X
-RECURSIVE ConeFix(_, _, _)
-ConeFix(e, X, E) ==
-  LET nxt == {s \in USteps(e) :
+\* least fixed point INSIDE the executed set: every executed command must be justified by an
+\* edited file (directly or through a pattern), by the output of another executed command, or by
+\* having been declared by an executed command
+RECURSIVE ConeFix(_, _, _, _)
+ConeFix(e, X, ex, E) ==
+  LET nxt == {s \in ex :
                 \/ s \in E
                 \/ \E p \in X : <<FileKey(p), s>> \in UDeps(e)
                 \/ GlobHit(e.a.state, s, X) \/ GlobHit(e.b.state, s, X)
                 \/ \E t \in E : \E f \in Keys(e.a.state) \cup Keys(e.b.state) :
                        <<t, f>> \in UDeps(e) /\ <<f, s>> \in UDeps(e)
                 \/ UCreator(e, s) \cap E # {}}
-  IN IF nxt = E THEN E ELSE ConeFix(e, X, nxt)
+  IN IF nxt = E THEN E ELSE ConeFix(e, X, ex, nxt)
 Cone(e) ==
   LET X == SeqSet(e.info.edited)
       ex == {"step:" \o x : x \in SeqSet(e.info.executed)}
-      cone == ConeFix(e, X, {})
+      cone == ConeFix(e, X, ex, {})
   IN {<<"executed_outside_cone", s>> : s \in ex \ cone}
 
 (* C05 *)
